@@ -55,7 +55,7 @@ ASSUMPTIONS = [
     "(or training_data= of add_input/add_output); there are no train_* input variables, so set_val is not a route",
     "component-vs-surrogate comparison trusts that training is deterministic for identical arrays (rtol 1e-9)",
 ]
-BOUND = {'quick': '4 units x 420 cases', 'thorough': '16 units x 2500 cases'}
+BOUND = {'quick': '4 units x 420 cases', 'thorough': '16 units x 1900 cases'}
 MIN_CLASS_FRACTION = {'judged_interp': 0.25, 'judged_lin': 0.25, 'comp': 0.1, 'kind_surr': 0.4}
 UNIT_TIMEOUT = {'quick': 3000, 'thorough': 14400}
 
@@ -98,7 +98,7 @@ def monomials(u):
     return np.column_stack(cols)
 
 
-def g_fun(ydef, col, u, train_index=None):
+def g_fun(ydef, col, u):
     """The generating function of output column `col` at box fractions u (rows)."""
     u = np.atleast_2d(u)
     mode = ydef['mode']
@@ -657,6 +657,7 @@ def check_surr(case):
                 cls.append('interp:rs:ill-conditioned')
             else:
                 pts = [np.array(q, dtype=float) / 100.0 for q in case['q']] + [U[i] for i in case['qt']]
+                beta = np.linalg.lstsq(monomials(X), Y, rcond=None)[0]      # only its norm is used (tolerance)
                 for u in pts:
                     x = to_x(case, u)
                     try:
@@ -670,8 +671,6 @@ def check_surr(case):
                     exp = np.array([truth(case, o, u)[0] for o in range(p)])
                     # tolerance: lstsq on a consistent system: |dbeta| <= eps*cond*|beta| ; prediction error <= |phi(x)| |dbeta|
                     Phi = monomials(x[None, :])[0]
-                    A = monomials(X)
-                    beta = np.linalg.lstsq(A, Y, rcond=None)[0]
                     tol = 200.0 * EPS * amp * np.linalg.norm(Phi) * np.linalg.norm(beta, axis=0) + 16 * EPS * tr.ymag
                     err = np.abs(got - exp)
                     judged += 1
@@ -1143,7 +1142,7 @@ def strategy(tier):
 
 def units(tier, seed):
     nunits = 4 if tier == 'quick' else 16
-    per = 420 if tier == 'quick' else 2500
+    per = 420 if tier == 'quick' else 1900
     return [{'kind': 'random', 'n': per, 'seed': core.shard_seed(seed, ID, i)} for i in range(nunits)]
 
 
